@@ -34,10 +34,13 @@ def mesh_for(dim, elem):
     return _MESH[(dim, elem)]
 
 
-def compile_expr(e, d):
+def compile_expr(e, d, mat=None):
     from EasyFEA.FEM._linalg import Trace
 
     I = np.eye(d)
+    # the specification's matrices are read in the library's layout (row = derivative index, column = component: grad[i][a] = d_i u_a,
+    # see reference()), so its product M E is the constant matrix M on the left of the field expression
+    Mm = None if mat is None else np.array([[f2(q) for q in row] for row in mat])
 
     def fn(g):
         x = g
@@ -48,13 +51,15 @@ def compile_expr(e, d):
                 x = 0.5 * (x + x.T)
             elif op == "TrI":
                 x = Trace(x) * I
+            elif op == "M":
+                x = Mm @ x
         return x
 
     return fn
 
 
-def compile_form(form, d, coef):
-    terms = [(f2(t["k"]), compile_expr(t["eu"], d), compile_expr(t["ev"], d)) for t in form]
+def compile_form(form, d, coef, mat=None):
+    terms = [(f2(t["k"]), compile_expr(t["eu"], d, mat), compile_expr(t["ev"], d, mat)) for t in form]
 
     def f(u, v):
         gu, gv = u.grad, v.grad
@@ -71,14 +76,15 @@ def compile_form(form, d, coef):
 
 
 def reference(g, d, tensor, coef, matrixType):
-    """sum_p wJ c T[a,i,b,j] dN_m,i dN_n,j ; library gradient layout: grad[i][a] = d_i u_a  ->  coefficient = tensor[i][a][j][b]"""
+    """K[(n,b),(m,a)] = sum_p wJ c T[a,i,b,j] dN_m,i dN_n,j : row = test function n / component b, column = trial function m /
+    component a (K u = F is the discrete a(u, v) = l(v)); library gradient layout: grad[i][a] = d_i u_a  ->  coefficient = tensor[i][a][j][b]"""
     dN = np.asarray(g.Get_dN_e_pg(matrixType))  # (Ne, nPg, dim, nPe)
     wJ = np.asarray(g.Get_weightedJacobian_e_pg(matrixType))
     T = np.array([[[[f2(tensor[i][a][j][b]) for j in range(d)] for b in range(d)] for i in range(d)] for a in range(d)])  # [a][i][b][j]
     c = np.ones_like(wJ)
     if coef == "x":
         c = 1.0 + np.asarray(g.Get_GaussCoordinates_e_pg(matrixType))[..., 0]
-    K = np.einsum("ep,ep,aibj,epim,epjn->emanb", wJ, c, T, dN, dN, optimize=True)
+    K = np.einsum("ep,ep,aibj,epim,epjn->enbma", wJ, c, T, dN, dN, optimize=True)
     Ne, nPe = K.shape[0], K.shape[1]
     return K.reshape(Ne, nPe * d, nPe * d)
 
@@ -95,7 +101,7 @@ def run_form(job):
         mesh = mesh_for(d, elem)
         g = mesh.groupElem
         field = Field(g, d, MatrixType.rigi)
-        form = BiLinearForm(compile_form(fm["form"], d, fm["coef"]))
+        form = BiLinearForm(compile_form(fm["form"], d, fm["coef"], fm.get("mat")))
         with quiet():
             K1 = np.asarray(form.Integrate_e(field))
         Kref = reference(g, d, fm["tensor"], fm["coef"], MatrixType.rigi)
@@ -136,6 +142,42 @@ def run_form(job):
 
         viol.append((f"raises/{key}", f"form {desc} on {elem}: {type(ex).__name__}: {ex} | {traceback.format_exc()[-300:]}", {"form": fm, "elem": elem}))
     return {"viol": viol, "n": 1, "keys": [(d, elem, key)], "traces": 1}
+
+
+def advection_forms(ctx):
+    """forms that involve the VALUE of the trial field (outside the gradient grammar): a(u, v) = (b . grad u) v + k grad u . grad v.
+    The element matrix has the test function on its rows: K[n, m] = int N_n (b . grad N_m) + k grad N_n . grad N_m; linear forms
+    on vector fields: F[(n, c)] = int N_n f_c."""
+    from EasyFEA.FEM import Field, BiLinearForm, LinearForm, MatrixType
+
+    for dim, elem in ((2, "TRI3"), (2, "QUAD4"), (2, "TRI6"), (3, "TETRA4")):
+        try:
+            mesh = mesh_for(dim, elem)
+            g = mesh.groupElem
+            b = np.array([1.5, -0.5, 0.75])[:dim]
+            mt = MatrixType.mass
+            fu = Field(g, 1, mt)
+            K = np.asarray(BiLinearForm(lambda u, v: (u.grad.dot(b)) * v + 0.5 * u.grad.dot(v.grad)).Integrate_e(fu))
+            N = np.asarray(g.Get_N_pg(mt))[:, 0, :]
+            dN = np.asarray(g.Get_dN_e_pg(mt))
+            wJ = np.asarray(g.Get_weightedJacobian_e_pg(mt))
+            Kref = np.einsum("ep,pn,i,epim->enm", wJ, N, b, dN) + 0.5 * np.einsum("ep,epin,epim->enm", wJ, dN, dN)
+            sc = np.abs(Kref).max()
+            if K.shape != Kref.shape or np.abs(K - Kref).max() > 1e-10 * sc:
+                tr = K.shape == Kref.shape and np.abs(K - np.swapaxes(Kref, 1, 2)).max() <= 1e-10 * sc
+                ctx.violation(f"advection/{elem}", f"(b . grad u) v + k grad u . grad v on {elem}: the element matrix differs from K[n, m] = int N_n (b . grad N_m) + ... (test function on the rows)" + (" - it is its transpose" if tr else f" (max rel {np.abs(K - Kref).max() / sc if K.shape == Kref.shape else 'shape'})"), {"elem": elem})
+            # vector linear form f . v
+            fv = Field(g, dim, mt)
+            f = np.array([2.0, -1.0, 0.5])[:dim]
+            Fe = np.asarray(LinearForm(lambda v: v.dot(f)).Integrate_e(fv))
+            Fref = np.einsum("ep,pn,c->enc", wJ, N, f).reshape(g.Ne, -1)
+            if np.abs(Fe.reshape(Fref.shape) - Fref).max() > 1e-10 * np.abs(Fref).max():
+                ctx.violation(f"linear-vector/{elem}", f"LinearForm f . v on a vector field ({elem}): Integrate_e differs from int N_n f_c", {"elem": elem})
+        except Exception as ex:
+            import traceback
+
+            ctx.violation(f"advection-raises/{elem}", f"an advection form / a vector linear form on {elem} raises {type(ex).__name__}: {ex} | {traceback.format_exc()[-300:]}", {"elem": elem})
+        ctx.count(2, distinct_key=("advection", elem))
 
 
 def builtins_and_linear(ctx):
@@ -272,10 +314,16 @@ def run(ctx):
     jobs = [(i, fm, e) for i, fm in enumerate(forms) for e in elems[fm["dim"]]]
     if not ctx.thorough:
         jobs = [j for k, j in enumerate(jobs) if (k + ctx.seed) % 2 == 0 or len(j[1]["form"]) > 1]
+    nunsym = sum(1 for j in jobs if not j[1].get("sym", True))
+    if nunsym < 20:
+        from harness.core import MachineryError
+
+        raise MachineryError(f"vacuous orientation check: only {nunsym} replayed forms are not symmetric in (u, v)")
     ctx.pmap(run_form, jobs, chunksize=4)
+    advection_forms(ctx)
     builtins_and_linear(ctx)
     weakform_simulations(ctx)
-    ctx.section("replay", forms=len(forms), jobs=len(jobs))
+    ctx.section("replay", forms=len(forms), jobs=len(jobs), jobs_with_a_form_that_is_not_symmetric=nunsym)
     ctx.sample({"form": forms[7]["form"], "coef": forms[7]["coef"], "dim": forms[7]["dim"]})
     ctx.cov["rule"] = "every form of the grammar of Forms.tla (36 expression pairs, two-term sums, constant / position-dependent coefficient, 2-D and 3-D) compiled and integrated on several element types; distinct = (dimension, element type, form)"
     ctx.assume("the meaning of a form is its coefficient tensor on unit gradients (bilinearity); mass-type and linear forms are checked outside the grammar against their definitions")
